@@ -110,11 +110,16 @@ type statsT struct {
 	lastFailure *failure
 	completed   bool
 	extra       map[string]any
+
+	hashesCapped bool
 }
 
 var stats = &statsT{hashes: map[uint64]struct{}{}, labels: map[string]int{}, excluded: map[string]int{}, extra: map[string]any{}}
 
 const maxSampleBytes = 4000
+
+// maxHashes bounds the per-process set of distinct non-trivial case hashes; beyond it the count is a lower bound.
+const maxHashes = 60000
 
 func (s *statsT) record(sub *Sub, raw []byte, rec *Rec) {
 	s.mu.Lock()
@@ -128,7 +133,9 @@ func (s *statsT) record(sub *Sub, raw []byte, rec *Rec) {
 		h := fnv.New64a()
 		h.Write(raw)
 		k := h.Sum64()
-		if _, ok := s.hashes[k]; !ok {
+		if _, ok := s.hashes[k]; !ok && len(s.hashes) >= maxHashes {
+			s.hashesCapped = true
+		} else if !ok {
 			s.hashes[k] = struct{}{}
 			if len(s.ntSamples) < 3 && len(raw) <= maxSampleBytes {
 				s.ntSamples = append(s.ntSamples, append([]byte(nil), raw...))
@@ -166,14 +173,15 @@ func (s *statsT) flush() {
 	}
 	sort.Strings(hs)
 	out := map[string]any{
-		"sub":         s.sub,
-		"evaluations": s.evaluations,
-		"hashes":      hs,
-		"labels":      s.labels,
-		"samples":     append(append([]json.RawMessage{}, s.ntSamples...), s.samples...),
-		"excluded":    s.excluded,
-		"completed":   s.completed,
-		"extra":       s.extra,
+		"sub":           s.sub,
+		"evaluations":   s.evaluations,
+		"hashes":        hs,
+		"labels":        s.labels,
+		"samples":       append(append([]json.RawMessage{}, s.ntSamples...), s.samples...),
+		"excluded":      s.excluded,
+		"completed":     s.completed,
+		"hashes_capped": s.hashesCapped,
+		"extra":         s.extra,
 	}
 	if s.lastFailure != nil {
 		out["failure"] = s.lastFailure
